@@ -4,6 +4,7 @@
 import GeonumModel.Lemmas.AngleStep
 import GeonumModel.Lemmas.Shift
 import GeonumModel.Lemmas.Exact
+import GeonumModel.Lemmas.ExactAdd
 
 set_option linter.unusedSectionVars false
 set_option linter.unusedVariables false
@@ -119,9 +120,62 @@ theorem project_mag_close {a b : Geonum ℝ} (ha : a.angle.Inv) (hb : b.angle.In
   have h1 := abs_abs_sub_abs_le_abs_sub (Real.cos (T b.angle - T a.angle + δ)) (Real.cos (T b.angle - T a.angle))
   exact le_trans h1 (le_trans (cos_lipschitz _ _) (le_of_lt hδ))
 
+/-- (E) **the projection is the vector `(a·b̂)b̂`**: its Cartesian point is `|a|·cos(T b − T a + δ)` along `b`'s direction (the
+    half turn for a negative cosine is absorbed in the sign), so it is independent of `|b|` and within `|a|·(1e-10+1e-15)` of the
+    orthogonal projection of `cart a` onto `b`'s ray -/
+theorem project_cart_real {a b : Geonum ℝ} (ha : a.angle.Inv) (hb : b.angle.Inv) (hbm : flt (fabs b.mag) (e10 : ℝ) = false) :
+    ∃ δ : ℝ, |δ| < 1 / 10 ^ 10 + 1 / 10 ^ 15 ∧
+      cart (a.project b) = polar (a.mag * Real.cos (T b.angle - T a.angle + δ)) (T b.angle) := by
+  obtain ⟨δ, hδ, hf, hm⟩ := project_values_real ha hb hbm
+  refine ⟨δ, hδ, ?_⟩
+  have ps := project_structure a b hbm
+  simp only at ps
+  set c := Real.cos (T b.angle - T a.angle + δ) with hc
+  by_cases hge : fge (a.angle.project b.angle) (zero : ℝ) = true
+  · have hc0 : 0 ≤ c := by
+      have h' : fle (zero : ℝ) (a.angle.project b.angle) = true := hge
+      rw [r_le, lit_real.1, hf] at h'; simpa using h'
+    have hang := ps.2.1 hge
+    show polar (a.project b).mag (T (a.project b).angle) = _
+    rw [hm, hang, abs_of_nonneg hc0]
+  · have hge' : fge (a.angle.project b.angle) (zero : ℝ) = false := by simpa using hge
+    have hc0 : c < 0 := by
+      have h' : fle (zero : ℝ) (a.angle.project b.angle) = false := hge'
+      rw [r_le, lit_real.1, hf] at h'; simpa using h'
+    have hang := ps.2.2.1 hge'
+    show polar (a.project b).mag (T (a.project b).angle) = _
+    rw [hm, hang, abs_of_neg hc0]
+    have hT : T (b.angle.geometricAdd (Angle.new one one)) = T b.angle + Real.pi := negate_total_real hb
+    rw [hT, polar_add_pi, ← polar_neg]; congr 1; ring
+
+/-- (E) projection plus rejection reproduces `a` (as Cartesian points, to within the tolerance of one subtraction) -/
+theorem project_add_reject_real {a b : Geonum ℝ} (ha : a.angle.Inv) (hb : b.angle.Inv) (h0a : 0 ≤ a.mag)
+    (hbm : flt (fabs b.mag) (e10 : ℝ) = false) (hg : Fin (b.angle.sub a.angle).gradeAngle)
+    (hcb : a.angle.blade + (b.angle.blade + 4) ≤ 2 ^ 40) :
+    ‖cart (a.project b) + cart (a.reject b) - cart a‖ ≤ 1 / 10 ^ 10 * (1 + a.mag + (a.project b).mag) := by
+  obtain ⟨hpinv, hpbl, _⟩ := project_angle (a := a) hbm hb
+  have hpm := project_mag_bounds (F := ℝ) (a := a) (b := b) trivial h0a hbm hg
+  simp only [val_id] at hpm
+  have hn := negate_spec hpinv
+  have hninv : (a.project b).negate.angle.Inv := inv_of_spec hpinv hn.2
+  have hsub := add_refines ha hninv h0a (show 0 ≤ (a.project b).negate.mag from hpm.1) (by
+    show a.angle.blade + (a.project b).angle.negate.blade ≤ 2 ^ 40
+    rw [hn.1]; rcases hpbl with h | h <;> rw [h] <;> omega)
+  have hcn : cart (a.project b).negate = -cart (a.project b) := by
+    show polar (a.project b).mag (T (a.project b).angle.negate) = -polar (a.project b).mag (T (a.project b).angle)
+    rw [negate_total_real hpinv, polar_add_pi]
+  rw [hcn] at hsub
+  have e : cart (a.project b) + cart (a.reject b) - cart a
+      = cart (a.add (a.project b).negate) - (cart a + -cart (a.project b)) := by
+    show cart (a.project b) + cart (a.sub (a.project b)) - cart a = _
+    show cart (a.project b) + cart (a.add (a.project b).negate) - cart a = _
+    ring
+  rw [e]; exact hsub
+
 end E
 
-/-! PARTIAL (not yet proved): cart(project a b) = (a·b̂)b̂ as vectors, rejection ⟂ b, proj + rej = a, Pythagoras,
+/-! PARTIAL (not yet proved): orthogonality of the rejection and Pythagoras as separate statements (they follow from
+    `project_cart_real` and `project_add_reject_real` by the trigonometric computation sketched in DESIGN §8),
     project_to_dimension k = |a|cos(kπ/2 − t).  Explored by `oracle.C11.*`. -/
 
 example {F : Type} [FloatSpec F] : (⟨zero, 1⟩ : Angle F).Inv := inv_zero 1
